@@ -106,23 +106,26 @@ def refmap_part(ctx, consts, theorems_ok):
     # ---- sequences
     T = ctx.thorough
     seqs = []
-    for _ in range(1200 if T else 260): seqs.append(U.gen_small(rng, seed, rng.choice([20, 60, 150, 400])))
+    for _ in range(6000 if T else 260): seqs.append(U.gen_small(rng, seed, rng.choice([20, 60, 150, 400])))
     for n in ([0, 1, 2, 4, 5, 6, 7, 10, 11, 12, 22, 23, 44, 45, 46, 89, 90, 91, 100, 179, 180, 358, 716, 717, 1000, 1433] + ([2866, 5000] if T else [])):
         seqs.append(U.gen_growth(rng, seed, n, 'm', rng.choice([1, 3, 10])))
-    for n in ((10000, 30000, 100000, 100000, 91648, 91649, 183296) if T else (10000, 100000)):
+    for n in ((10000, 30000, 100000, 100000, 100000, 45824, 45825, 91648, 91649, 183296, 183297, 250000) if T else (10000, 100000)):
         seqs.append(U.gen_growth(rng, seed, n, 'n', 7))
-    if T: seqs.append(U.gen_growth(rng, seed, 10000, 'm', 5))
+    if T:
+        for n in (5000, 10000, 20000): seqs.append(U.gen_growth(rng, seed, n, 'm', 5))
     for mode in ('same', 'end', 'top'):
-        for n, bits in (((40, 6), (150, 12), (500, 20), (900, 24)) if T else ((40, 6), (150, 12), (400, 20))):
+        for n, bits in (((40, 6), (150, 12), (500, 20), (900, 24), (1500, 30), (64, 40)) if T else ((40, 6), (150, 12), (400, 20))):
             seqs.append(U.gen_collide(rng, seed, n, bits, mode))
-    for _ in range(3 if T else 1): seqs.append(U.gen_refuse_boundaries(rng, seed))
-    for _ in range(300 if T else 60): seqs.append(U.gen_stream(rng, seed, rng.choice([30, 200, 1000])))
+    for _ in range(6 if T else 1): seqs.append(U.gen_refuse_boundaries(rng, seed))
+    for _ in range(1500 if T else 60): seqs.append(U.gen_stream(rng, seed, rng.choice([30, 200, 1000])))
 
     if ctx.replay_in:
         import json
         rp = json.load(open(ctx.replay_in))
         if 'sequence' in rp:
             s = U.Seq('replay'); s.ops = rp['sequence'].split()[2:]; s.hm = rp['sequence'].split()[1]; seqs = [s]
+        else:
+            seqs = seqs[:3]
 
     lines = [s.line() for s in seqs]
     order = sorted(range(len(seqs)), key=lambda i: -len(seqs[i].ops))   # longest first, spread over workers
@@ -135,21 +138,7 @@ def refmap_part(ctx, consts, theorems_ok):
             return 'MODELFAIL ' + str(e)[:200]
 
     def run_impl_chunk(idx):
-        # like lib.run_harness_resilient, but gives up on a chunk after 3 crashes / hangs (a probe loop over a full
-        # table never ends: the harness kills itself after 8 s per sequence)
-        ls = [lines[i] for i in idx]
-        replies, start, crashes = [], 0, 0
-        while start < len(ls):
-            rc, res, err = H.run(ls[start:], timeout=600)
-            replies.extend(res[:len(ls) - start])
-            done = start + len(res)
-            if done >= len(ls): break
-            why = 'no reply within 8 s (SIGALRM): a loop in refmap.c does not terminate' if rc in (-14, 142) else ' '.join(err.strip().split('\n')[:12])[:1500]
-            replies.append('CRASH ' + why)
-            start = done + 1; crashes += 1
-            if crashes >= 3:
-                replies.extend(['SKIP'] * (len(ls) - len(replies))); break
-        return replies[:len(ls)]
+        return U.run_capped(H, [lines[i] for i in idx])
 
     chunks = [order[k::12] for k in range(12)]
     with cf.ThreadPoolExecutor(max_workers=15) as ex:
@@ -210,7 +199,7 @@ def refmap_part(ctx, consts, theorems_ok):
 
     # ---- abstract clone model with the extracted refmap as memo vs the obvious set semantics (ties part B to part A)
     cl_lines, want = [], []
-    for _ in range(200 if T else 60):
+    for _ in range(600 if T else 60):
         n = rng.randint(1, 40)
         ch = {v: sorted(rng.sample(range(v + 1, n + 1), min(n - v, rng.choice([0, 0, 1, 2, 3, 5])))) if v < n else [] for v in range(1, n + 1)}
         for v in ch:
